@@ -36,6 +36,9 @@ using namespace BaseGraph;
 typedef std::vector<std::string> Args;
 
 // ---------------------------------------------------------------- dumps
+// quiet mode: implicit dumps are dropped from the transcript, so they are not computed either
+// (an explicit `dump` request still is)
+static bool g_skipDump = false;
 template <class Gr> static void dumpBase(std::ostream &o, const Gr &g) {
     size_t n = g.getSize();
     for (size_t i = 0; i < n; ++i)
@@ -168,6 +171,7 @@ template <class L, bool UND> struct GrSlot : SlotBase {
     std::string cls() const override { return UND ? "und" : "dir"; }
     std::string kind() const override { return LK<L>::name(); }
     void dump(std::ostream &o, int s) override {
+        if (g_skipDump) return;
         o << "D " << s << " " << cls() << " size=" << g.getSize() << " en=" << g.getEdgeNumber() << "\n";
         dumpBase(o, g);
         if (LK<L>::labelled) {
@@ -332,6 +336,7 @@ template <bool UND> struct MgSlot : SlotBase {
     std::string cls() const override { return UND ? "umulti" : "dmulti"; }
     std::string kind() const override { return "-"; }
     void dump(std::ostream &o, int s) override {
+        if (g_skipDump) return;
         o << "D " << s << " " << cls() << " size=" << g.getSize() << " en=" << g.getEdgeNumber()
           << " tot=" << g.getTotalEdgeNumber() << "\n";
         dumpBase(o, g);
@@ -441,6 +446,7 @@ template <bool UND> struct WgSlot : SlotBase {
     std::string cls() const override { return UND ? "uw" : "dw"; }
     std::string kind() const override { return "-"; }
     void dump(std::ostream &o, int s) override {
+        if (g_skipDump) return;
         o << "D " << s << " " << cls() << " size=" << g.getSize() << " en=" << g.getEdgeNumber()
           << " tot=" << showQuarterLD(g.getTotalWeight()) << "\n";
         dumpBase(o, g);
@@ -815,6 +821,7 @@ int main(int argc, char **argv) {
         if (t == "mode quiet" || t == "mode verbose") { quiet = (t == "mode quiet"); o << "> " << t << "\n"; if (echoFile.is_open()) echoFile << t << "\n"; continue; }
         if (t == "reset") { slots.clear(); quiet = false; o << "R reset\n"; o.flush(); if (echoFile.is_open()) { echoFile << t << "\n"; echoFile.flush(); } continue; }
         Args w = split(t);
+        g_skipDump = quiet && !w.empty() && w[0] != "dump";
         std::string echo = t;
         std::ostringstream out;
         bool ok = false;
@@ -954,7 +961,7 @@ int main(int argc, char **argv) {
             if (pi(w[1], a) && get(a)) {
                 std::string r;
                 Args rest(w.begin() + 2, w.end());
-                if (get(a)->mutate(verb, rest, r)) { out << "R " << r << "\n"; if (!quiet) get(a)->dump(out, a); ok = true; }
+                if (get(a)->mutate(verb, rest, r)) { out << "R " << r << "\n"; get(a)->dump(out, a); ok = true; }
             }
         }
         o << "> " << echo << "\n";
